@@ -94,15 +94,16 @@ Theorem C16_successive_stores_share_one_dictionary :
 Proof. exact (sessions_flag ufm_oversize_uncached ufm_uncached_purges kvs_get_catches_fnf eq_refl eq_refl eq_refl). Qed.
 Print Assumptions C16_successive_stores_share_one_dictionary.
 
-(* T16.table over histories: for every sequence of table sets / gets / unloads / reopens (any frames, any size
+(* T16.table over histories: for every sequence of table sets / gets / unloads / reopens AND in-place modifications by the
+   caller of tables it fetched (never stored back; closed over the regenerated fact that a get hands out a copy) (any frames, any size
    functions, any limits, any eviction choices) the table store answers like a dictionary whose set stores the
    documented merge of the stored table with the new one (MemoryError refusals when a pickle exceeds the limit) *)
 Theorem C16_table_store_refines_dictionary :
   forall (flen fmem : frame -> Z) (dirsize : Z), (forall f, 0 <= fmem f) ->
   forall K, prefix_free K -> forall mx ops, 0 <= mx -> Forall (top_ok K) ops ->
-  snd (tbl_run flen fmem dirsize ufm_oversize_uncached ufm_uncached_purges (open_cache frame [] mx) ops)
+  snd (tbl_run flen fmem dirsize ufm_oversize_uncached ufm_uncached_purges table_get_returns_copy (open_cache frame [] mx) ops)
   = snd (tspec_run flen (mkS frame [] (norm_max mx)) ops).
-Proof. exact (table_flag ufm_oversize_uncached ufm_uncached_purges eq_refl eq_refl). Qed.
+Proof. exact (table_flag ufm_oversize_uncached ufm_uncached_purges table_get_returns_copy eq_refl eq_refl eq_refl). Qed.
 Print Assumptions C16_table_store_refines_dictionary.
 
 (* ---- the full statement (no restriction on keys or sizes) and why it is false for the code as written ---- *)
@@ -151,6 +152,24 @@ Theorem C16_stale_item_refuted_without_purge :
   snd (kvs_run lenmem fst snd 4096 true false true (open_cache lenmem [] 12) stale_witness) = [RSet; RSet; RSet; RErr KeyErr] /\
   snd (kvs_run lenmem fst snd 4096 true true true (open_cache lenmem [] 12) stale_witness) = [RSet; RSet; RSet; RSet].
 Proof. vm_compute. split; reflexivity. Qed.
+
+(* K4: if a get handed out the cached DataFrame itself (Table.__init__ without .copy()), a local change of a fetched
+   table would change what later gets return although nothing was set *)
+Definition alias_witness : list top :=
+  [TOSet [1] [(1, 10); (2, 20)] 1 2 [] []; TOGet [1] 3 []; TOModify [1] [(1, 10); (2, 20); (3, 99)]; TOGet [1] 4 []].
+Theorem C16_alias_refuted_without_copy :
+  let fl := fun f : frame => Z.of_nat (length f) in
+  snd (tbl_run fl fl 4096 true true false (open_cache frame [] 100) alias_witness)
+    = [TSet; TVal [(1, 10); (2, 20)]; TNone; TVal [(1, 10); (2, 20); (3, 99)]] /\
+  snd (tbl_run fl fl 4096 true true true (open_cache frame [] 100) alias_witness)
+    = [TSet; TVal [(1, 10); (2, 20)]; TNone; TVal [(1, 10); (2, 20)]] /\
+  snd (tspec_run fl (mkS frame [] 100) alias_witness) = [TSet; TVal [(1, 10); (2, 20)]; TNone; TVal [(1, 10); (2, 20)]].
+Proof. vm_compute. repeat split; reflexivity. Qed.
+
+(* _write_file opens exactly the file of the key it writes and renames/removes nothing (regenerated) *)
+Theorem C16_write_file_touches_only_its_key : write_file_opens_target_only = true.
+Proof. exact eq_refl. Qed.
+Print Assumptions C16_write_file_touches_only_its_key.
 
 (* ---- non-vacuity: a concrete history with nested keys, evictions, unload, reopen, an oversized value ---- *)
 Definition ex_K : list name := [[1]; [2; 3]; [2; 4]; [9]].
